@@ -23,10 +23,14 @@ KindTable == <<
   <<"add", 12>>, <<"sub_", 12>>, <<"lshift", 11>>, <<"rshift", 11>>, <<"bitand", 10>>, <<"bitxor", 9>>, <<"bitor", 8>>,
   <<"eq", 7>>, <<"lt", 7>>, <<"is", 7>>, <<"isnot", 7>>, <<"in", 7>>, <<"notin", 7>>, <<"cmpchain", 7>>,
   <<"not", 6>>, <<"and", 5>>, <<"or", 4>>, <<"ifexp", 3>>, <<"lambda", 3>>, <<"lambda1", 3>>,
-  <<"tuple1", 0>>, <<"tuple2", 0>>, <<"walrus", 0>>, <<"yield", 0>>, <<"yield0", 0>>, <<"yieldfrom", 0>>, <<"starred", 0>> >>
+  <<"tuple1", 0>>, <<"tuple2", 0>>, <<"startuple1", 0>>, <<"startuple2", 0>>, <<"walrus", 0>>, <<"yield", 0>>, <<"yield0", 0>>, <<"yieldfrom", 0>>, <<"starred", 0>> >>
 Kinds == {KindTable[k][1] : k \in DOMAIN KindTable}
 LevelOf == [kind \in Kinds |-> KindTable[CHOOSE k \in DOMAIN KindTable : KindTable[k][1] = kind][2]]
 TupleKinds == {"tuple1", "tuple2"}
+\* tuples with a starred element: bare only where the grammar has star_expressions / star_named_expressions
+StarTupleKinds == {"startuple1", "startuple2"}
+StarTupleBareSlots == {"expr", "assign.value", "augassign.value", "annassign.value", "return", "for.iter", "sub.index", "yield.value", "match.subject",
+                       "fstr.value", "fstr.value.conv", "fstr.value.spec", "fstr.spec.value"}
 YieldKinds == {"yield", "yield0", "yieldfrom"}
 
 \* <<slot, needs, tupleBare, walrusBare, yieldBare, starOK>>
@@ -82,13 +86,14 @@ LexNeeds(s, kind) ==
     \/ (s \in {"attr.value", "assign.target.attr"} /\ kind = "int")                       \* 1.x lexes as a float
     \/ (s \in {"fstr.value", "fstr.value.conv", "fstr.value.spec", "fstr.spec.value"} /\ kind \in {"lambda", "lambda1"})   \* ':' starts the format spec
     \/ (s \in {"fstr.value", "fstr.value.conv", "fstr.value.spec", "fstr.spec.value"} /\ kind = "walrus")
-    \/ (s = "with.ctx" /\ kind \in TupleKinds)                  \* with (a, b): is a list of items
-    \/ (s = "with.ctx2" /\ kind \in TupleKinds)
+    \/ (s = "with.ctx" /\ kind \in TupleKinds \cup StarTupleKinds)                  \* with (a, b): is a list of items
+    \/ (s = "with.ctx2" /\ kind \in TupleKinds \cup StarTupleKinds)
 
 \* is the bare (unparenthesised) spelling faithful?
 BareOK(s, kind) ==
     /\ ~LexNeeds(s, kind)
     /\ CASE kind \in TupleKinds -> SlotRow(s)[3]
+         [] kind \in StarTupleKinds -> s \in StarTupleBareSlots
          [] kind = "walrus"     -> SlotRow(s)[4]
          [] kind \in YieldKinds -> SlotRow(s)[5]
          [] kind = "starred"    -> SlotRow(s)[6]
